@@ -763,7 +763,7 @@ struct Interp
 		}
 		int got = impl->harvest(dst, (int)from.size());
 		if(got != (int)from.size()) {
-			fail("cbl.copy.size", "C10", "copy holds " + std::to_string(got) + " callbacks, source has " + std::to_string(from.size()));
+			fail("cbl.copy.size", "C10,C19,C08,C09", "copy holds " + std::to_string(got) + " callbacks, source has " + std::to_string(from.size()));
 		}
 		lastCounter[dst] = impl->counter(dst);
 	}
@@ -776,11 +776,11 @@ struct Interp
 		std::vector<int> adopted;
 		for(const auto & g : got) {
 			if(g.first < 0 || std::find(pool.begin(), pool.end(), g.first) == pool.end()) {
-				fail("cbl.movedfrom.invented", "C10", "moved-from list reports a callback it never held");
+				fail("cbl.movedfrom.invented", "C10,C19", "moved-from list reports a callback it never held");
 				return;
 			}
 			if(inList(dst, g.first)) {
-				fail("cbl.movedfrom.shared", "C10", "moved-from list still shares a callback with the destination");
+				fail("cbl.movedfrom.shared", "C10,C19", "moved-from list still shares a callback with the destination");
 				return;
 			}
 			adopted.push_back(g.first);
@@ -1066,7 +1066,7 @@ Grammar makeGrammar(const std::string & prop)
 		top.kinds.push_back({ K_CHURN, "churn", w / 2, ArgSpec(1, 3000), ArgSpec(0, 0), slotArg, -1, 0 });
 	}
 	if(wrap) {
-		top.kinds.push_back({ K_NEARWRAP, "nearWrap", 8, ArgSpec(0, 12), ArgSpec(0, 0), slotArg, -1, 0 });
+		top.kinds.push_back({ K_NEARWRAP, "nearWrap", 8, ArgSpec(0, 12, 0, 1, 45), ArgSpec(0, 0), slotArg, -1, 0 });
 	}
 	g.levels.push_back(top);
 	if(nested) {
@@ -1087,7 +1087,7 @@ Grammar makeGrammar(const std::string & prop)
 			body.kinds.push_back({ K_COPYCTOR, "copyCtor", 1, ArgSpec(0, 3), ArgSpec(0, 3), ArgSpec(0, 0), -1, 0 });
 		}
 		if(wrap) {
-			body.kinds.push_back({ K_NEARWRAP, "nearWrap", 4, ArgSpec(0, 6), ArgSpec(0, 0), slotArg, -1, 0 });
+			body.kinds.push_back({ K_NEARWRAP, "nearWrap", 4, ArgSpec(0, 6, 0, 1, 45), ArgSpec(0, 0), slotArg, -1, 0 });
 		}
 		g.levels.push_back(body);
 	}
